@@ -494,6 +494,125 @@ def rk_cases(draw):
     }
 
 
+# ------------------------------------------------------------------------------------------------ Verlet (second order)
+def prop_verlet(case, r):
+    from pySDC.implementations.sweeper_classes.verlet import verlet
+
+    n = case['n']
+    sp = dict(case['nodes'])
+    sp['do_coll_update'] = bool(case['coll_update'])
+    sp['QI'], sp['QE'] = case['QI'], case['QE']
+    desc = {'problem_class': F.LinSecondOrder, 'problem_params': {'K': _np(case['K']), 'g': case['g']}, 'sweeper_class': verlet, 'sweeper_params': sp, 'level_params': {'dt': case['dt']}, 'step_params': {'maxiter': 1}}
+    try:
+        step = Step(desc)
+    except (AssertionError, NotImplementedError) as e:
+        r.discard(f'preconditioner rejected at construction: {type(e).__name__}')
+        return
+    L = step.levels[0]
+    P, sweep = L.prob, L.sweep
+    coll = sweep.coll
+    M, dt, t0 = coll.num_nodes, L.dt, case['t0']
+    r.label('verlet', case['nodes']['quad_type'], 'tau' if case['tau'] is not None else 'no-tau', 'coll-update' if case['coll_update'] else 'last-node')
+    Q = np.asarray(coll.Qmat, float)
+    w = np.asarray(coll.weights, float)
+    nodes = np.asarray(coll.nodes, float)
+    QI = np.zeros((M + 1, M + 1))
+    QE = np.zeros((M + 1, M + 1))
+    QI[1:, 1:] = independent_qdelta(case, case['QI'], None)[0][1:, 1:]
+    QEf, _ = independent_qdelta(case, case['QE'], None, True)
+    QE[:] = QEf
+    if not (np.isfinite(QI).all() and np.isfinite(QE).all()):
+        r.discard('non-finite preconditioner')
+        return
+    # matrices of the statement: QT = (QI+QE)/2, Qx = QE QT + QE o QE / 2
+    QT = 0.5 * (QI + QE)
+    Qx = QE @ QT + 0.5 * QE * QE
+    r.close(np.abs(np.asarray(sweep.QT) - QT).max(), 1e-13, 'verlet-QT')
+    r.close(np.abs(np.asarray(sweep.Qx) - Qx).max(), 1e-13, 'verlet-Qx')
+    if coll.node_type == 'LEGENDRE' and coll.quad_type == 'LOBATTO':
+        QQ = None  # symplectic variant documented for Gauss-Lobatto nodes: taken from the sweeper
+        QQ = np.asarray(sweep.QQ, float)
+    else:
+        QQ = Q @ Q
+        r.close(np.abs(np.asarray(sweep.QQ) - QQ).max(), 1e-13, 'verlet-QQ')
+    L.status.time = t0
+    L.status.unlocked = True
+    L.status.sweep = 1
+    X = _np(case['X'])
+    V = _np(case['V'])
+    tm = t0 + dt * nodes
+    for m in range(M + 1):
+        u = P.dtype_u(P.init)
+        u.pos[:] = X[m]
+        u.vel[:] = V[m]
+        L.u[m] = u
+        L.f[m] = P.eval_f(u, t0 if m == 0 else tm[m - 1])
+    tau = None
+    if case['tau'] is not None:
+        tau = _np(case['tau'])
+        for m in range(M):
+            tt = P.dtype_u(P.init, val=0.0)
+            tt.pos[:] = tau[m, 0]
+            tt.vel[:] = tau[m, 1]
+            L.tau[m] = tt
+    if len({tuple(x) for x in np.round(X, 12)}) > 1 and M >= 2:
+        r.nontrivial(['verlet', case['QI'], case['QE'], case['nodes'], n, case['tau'] is not None, case['coll_update']])
+    Fold = np.array([np.asarray(L.f[m]) for m in range(M + 1)])
+    x0, v0 = X[0].copy(), V[0].copy()
+    K = P.Km
+    # integrate(): pos = dt^2 QQ F + dt Q 1 v0, vel = dt Q F
+    integ = sweep.integrate()
+    ip = np.array([np.asarray(p.pos) for p in integ])
+    iv = np.array([np.asarray(p.vel) for p in integ])
+    ep = dt * dt * (QQ[1:, 1:] @ Fold[1:]) + dt * Q[1:, 1:].sum(axis=1)[:, None] * v0[None, :]
+    evl = dt * (Q[1:, 1:] @ Fold[1:])
+    sc = max(1.0, np.abs(Fold).max(), np.abs(v0).max())
+    r.close(np.abs(ip - ep).max(), 1e-12 * sc * M, 'verlet-integrate-pos')
+    r.close(np.abs(iv - evl).max(), 1e-12 * sc * M, 'verlet-integrate-vel')
+    sweep.update_nodes()
+    # reference: node by node, dense algebra
+    Xn = np.zeros((M, n))
+    Vn = np.zeros((M, n))
+    Fn = np.zeros((M, n))
+    for m in range(M):
+        kp = ep[m] - dt * dt * (Qx[m + 1, 1:] @ Fold[1:]) + x0 + (tau[m, 0] if tau is not None else 0.0)
+        kv = evl[m] - dt * (QT[m + 1, 1:] @ Fold[1:]) + v0 + (tau[m, 1] if tau is not None else 0.0)
+        Xn[m] = kp + dt * dt * (Qx[m + 1, 1 : m + 1] @ Fn[:m])
+        Fn[m] = -K @ Xn[m] + P.forcing(tm[m])
+        Vn[m] = kv + dt * (QT[m + 1, 1 : m + 1] @ Fn[:m]) + dt * QT[m + 1, m + 1] * Fn[m]
+    gotX = np.array([np.asarray(L.u[m].pos) for m in range(1, M + 1)])
+    gotV = np.array([np.asarray(L.u[m].vel) for m in range(1, M + 1)])
+    gotF = np.array([np.asarray(L.f[m]) for m in range(1, M + 1)])
+    sc2 = max(1.0, np.abs(Xn).max(), np.abs(Vn).max(), np.abs(Fn).max())
+    r.close(np.abs(gotX - Xn).max(), 1e-11 * sc2 * M, 'verlet-sweep-pos', lambda: f'{case["QI"]}/{case["QE"]} {case["nodes"]} dt={dt}')
+    r.close(np.abs(gotV - Vn).max(), 1e-11 * sc2 * M, 'verlet-sweep-vel', lambda: f'{case["QI"]}/{case["QE"]} {case["nodes"]} dt={dt}')
+    r.close(np.abs(gotF - Fn).max(), 1e-11 * sc2 * M * max(1.0, np.abs(K).max()), 'verlet-f-consistent')
+    r.check(np.array_equal(np.asarray(L.u[0].pos), x0) and np.array_equal(np.asarray(L.u[0].vel), v0), 'u0-modified', 'verlet sweep changed u[0]')
+    sweep.compute_end_point()
+    if coll.right_is_node and not case['coll_update']:
+        r.check(np.array_equal(np.asarray(L.uend.pos), gotX[-1]) and np.array_equal(np.asarray(L.uend.vel), gotV[-1]), 'endpoint-last-node', '')
+    else:
+        qQ = w @ Q[1:, 1:]
+        xe = x0 + dt * dt * (qQ @ gotF) + dt * w.sum() * v0 + (tau[-1, 0] if tau is not None else 0.0)
+        ve = v0 + dt * (w @ gotF) + (tau[-1, 1] if tau is not None else 0.0)
+        r.close(np.abs(np.asarray(L.uend.pos) - xe).max(), 1e-11 * sc2 * M, 'verlet-endpoint-pos', lambda: f'{case["nodes"]} coll_update={case["coll_update"]}')
+        r.close(np.abs(np.asarray(L.uend.vel) - ve).max(), 1e-11 * sc2 * M, 'verlet-endpoint-vel')
+    r.check(L.uend is not L.u[-1] and not np.shares_memory(np.asarray(L.uend.pos), np.asarray(L.u[-1].pos)), 'endpoint-alias', '')
+
+
+@st.composite
+def verlet_cases(draw, max_nodes=5):
+    nodes = draw(S.node_sets(max_nodes=max_nodes))
+    M = nodes['num_nodes']
+    n = draw(st.integers(1, 3))
+    B = np.array(draw(S.mat(n)))
+    return {
+        'nodes': nodes, 'n': n, 'K': ((B @ B.T) / n + 0.2 * np.eye(n)).tolist(), 'g': draw(S.forcing(n)), 'dt': draw(S.log_uniform(-2, 0.3)), 't0': draw(S.small_float(-2, 5)),
+        'QI': draw(st.sampled_from(['IE', 'LU', 'MIN-SR-S', 'TRAP', 'PIC'])), 'QE': draw(st.sampled_from(['EE', 'PIC'])), 'X': draw(S.mat(M + 1, n)), 'V': draw(S.mat(M + 1, n)),
+        'tau': [[draw(S.small_float()), draw(S.small_float())] for _ in range(M)] if draw(st.booleans()) else None, 'coll_update': draw(st.booleans()),
+    }  # fmt: skip
+
+
 def known_match(fid, clause, case, failure):
     tag, msg = failure
     if fid == 'F10' and tag == 'nonfinite-QD':
@@ -507,4 +626,5 @@ def clauses(tier):
     return [
         Clause('sdc-sweep', prop_sdc, strategy=sdc_cases(max_nodes=mx), examples={'quick': 2400, 'thorough': 60000}),
         Clause('rk-stages', prop_rk, strategy=rk_cases(), examples={'quick': 800, 'thorough': 15000}),
+        Clause('verlet', prop_verlet, strategy=verlet_cases(mx), examples={'quick': 600, 'thorough': 12000}),
     ]
